@@ -76,6 +76,23 @@ def alloc_port():
     raise common.EngineError("no free port")
 
 
+def port_listening(port):
+    """True when some socket is in LISTEN state on this TCP port. Read from /proc: probing by binding
+    would itself occupy the port for an instant and make the process under test fail to bind."""
+    want = "%04X" % port
+    for f in ("/proc/net/tcp", "/proc/net/tcp6"):
+        try:
+            with open(f) as fh:
+                next(fh, None)
+                for line in fh:
+                    p = line.split()
+                    if len(p) > 3 and p[3] == "0A" and p[1].rsplit(":", 1)[-1] == want:
+                        return True
+        except OSError:
+            pass
+    return False
+
+
 def free_port(port):
     try:
         os.unlink(os.path.join(PORT_DIR, str(port)))
